@@ -4,3 +4,4 @@ open PgmVerif
 #print axioms PgmVerif.C20_cov_unique
 #print axioms PgmVerif.C20_conditional_is_schur
 #print axioms PgmVerif.C20_precision_block
+#print axioms PgmVerif.C20_round_tie
